@@ -1639,4 +1639,197 @@ fn find_used_blobs<S>(
 #[allow(missing_docs, unused_imports, dead_code, clippy::all, clippy::pedantic, clippy::nursery)]
 pub mod verif_hooks {
     use super::*;
+
+    /// What the planner decided for one pack (captured before `filter_index_files` drops index files).
+    #[derive(Debug, Clone)]
+    pub struct PackDecision {
+        pub index: IndexId,
+        pub pack: PackId,
+        pub blob_type: BlobType,
+        pub marked: bool,
+        pub size: u32,
+        pub to_do: PackToDo,
+    }
+
+    /// A finished plan plus the observations the harness compares.
+    #[derive(Debug)]
+    pub struct PlanReport {
+        pub plan: PrunePlan,
+        /// all packs of the plan (after `PrunePlan::new` de-dup), in index-file order
+        pub decisions: Vec<PackDecision>,
+        /// ids of the index files the plan will rebuild (after `filter_index_files`)
+        pub rebuild: Vec<IndexId>,
+        /// keys left in `used_ids` after `check_existing_packs`
+        pub used_left: Vec<(BlobType, BlobId)>,
+        /// unreferenced packs (left in `existing_packs`)
+        pub unreferenced: Vec<(PackId, u32)>,
+    }
+
+    /// `PackInfo::from_pack` on a pack given by its blobs, against a used-id counter map (updated in place).
+    /// Returns (used_blobs, unused_blobs, used_size, unused_size).
+    pub fn pack_info(
+        blobs: Vec<IndexBlob>,
+        used_ids: &mut BTreeMap<BlobId, u8>,
+    ) -> (u16, u16, u32, u32) {
+        let pack = PrunePack::from_index_pack_unmarked(IndexPack {
+            id: PackId::default(),
+            blobs,
+            time: None,
+            size: Some(0),
+        });
+        let pi = PackInfo::from_pack(&pack, used_ids);
+        (pi.used_blobs, pi.unused_blobs, pi.used_size, pi.unused_size)
+    }
+
+    /// The part of `PrunePlan::from_prune_options` after the repository has been read, with the plan
+    /// time injected (`PrunePlan::new` uses `Zoned::now()`).
+    pub fn finish_plan(
+        mut pruner: PrunePlan,
+        opts: &PruneOptions,
+        now: Zoned,
+        repack_cacheable_only: bool,
+        pack_sizer: &BlobTypeMap<PackSizer>,
+    ) -> RusticResult<PlanReport> {
+        pruner.time = now;
+        pruner.count_used_blobs();
+        pruner.check()?;
+        pruner.decide_packs(
+            opts.keep_pack,
+            opts.keep_delete,
+            repack_cacheable_only,
+            opts.repack_uncompressed,
+            opts.repack_all,
+            pack_sizer,
+        )?;
+        pruner.decide_repack(
+            &opts.max_repack,
+            &opts.max_unused,
+            opts.repack_uncompressed || opts.repack_all,
+            opts.no_resize,
+            pack_sizer,
+        );
+        pruner.check_existing_packs()?;
+        let decisions = pruner
+            .index_files
+            .iter()
+            .flat_map(|index| {
+                index.packs.iter().map(|p| PackDecision {
+                    index: index.id,
+                    pack: p.id,
+                    blob_type: p.blob_type,
+                    marked: p.delete_mark,
+                    size: p.size,
+                    to_do: p.to_do,
+                })
+            })
+            .collect();
+        pruner.filter_index_files(opts.instant_delete);
+        let rebuild = pruner.index_files.iter().map(|i| i.id).collect();
+        let used_left = used_keys(&pruner);
+        let unreferenced = pruner.existing_packs.iter().map(|(id, s)| (*id, *s)).collect();
+        Ok(PlanReport {
+            plan: pruner,
+            decisions,
+            rebuild,
+            used_left,
+            unreferenced,
+        })
+    }
+
+    /// Build a plan from explicitly given parts (no repository needed).
+    pub fn plan_from_parts(
+        used: Vec<(BlobType, BlobId)>,
+        existing_packs: Vec<(PackId, u32)>,
+        index_files: Vec<(IndexId, IndexFile)>,
+        opts: &PruneOptions,
+        now: Zoned,
+        repack_cacheable_only: bool,
+        pack_sizer: &BlobTypeMap<PackSizer>,
+    ) -> RusticResult<PlanReport> {
+        let pruner = PrunePlan::new(
+            make_used(used),
+            existing_packs.into_iter().collect(),
+            index_files,
+        );
+        finish_plan(pruner, opts, now, repack_cacheable_only, pack_sizer)
+    }
+
+    /// `PrunePlan::from_prune_options` with the plan time injected.
+    pub fn plan_at<S: Open>(
+        repo: &Repository<S>,
+        opts: &PruneOptions,
+        now: Zoned,
+    ) -> RusticResult<PlanReport> {
+        let be = repo.dbe();
+        let version = repo.config().version;
+        if version < 2 && opts.repack_uncompressed {
+            return Err(RusticError::new(
+                ErrorKind::Unsupported,
+                "Repacking uncompressed pack is unsupported in Repository version `{config_version}`.",
+            ));
+        }
+        let mut index_files = Vec::new();
+        let p = repo.progress_counter("reading index...");
+        let mut index_collector = IndexCollector::new(IndexType::OnlyTrees);
+        for index in be.stream_all::<IndexFile>(&p)? {
+            let (id, index) = index?;
+            index_collector.extend(index.packs.clone());
+            index_collector.extend(index.packs_to_delete.clone());
+            index_files.push((id, index));
+        }
+        let (used_ids, total_size) = {
+            let index = GlobalIndex::new_from_index(index_collector.into_index());
+            let total_size = BlobTypeMap::init(|blob_type| index.total_size(blob_type));
+            let used_ids = find_used_blobs(repo, be, &index, &opts.ignore_snaps)?;
+            (used_ids, total_size)
+        };
+        let existing_packs: BTreeMap<_, _> = be
+            .list_with_size(FileType::Pack)?
+            .into_iter()
+            .map(|(id, size)| (PackId::from(id), size))
+            .collect();
+        let pruner = PrunePlan::new(used_ids, existing_packs, index_files);
+        let repack_cacheable_only = opts
+            .repack_cacheable_only
+            .unwrap_or_else(|| repo.config().is_hot == Some(true));
+        let pack_sizer =
+            total_size.map(|tpe, size| PackSizer::from_config(repo.config(), tpe, size));
+        finish_plan(pruner, opts, now, repack_cacheable_only, &pack_sizer)
+    }
+
+    /// The plan's decisions as visible after planning (retained index files only).
+    pub fn plan_decisions(plan: &PrunePlan) -> Vec<PackDecision> {
+        plan.index_files
+            .iter()
+            .flat_map(|index| {
+                index.packs.iter().map(|p| PackDecision {
+                    index: index.id,
+                    pack: p.id,
+                    blob_type: p.blob_type,
+                    marked: p.delete_mark,
+                    size: p.size,
+                    to_do: p.to_do,
+                })
+            })
+            .collect()
+    }
+
+    pub fn plan_time(plan: &PrunePlan) -> Timestamp {
+        plan.time.timestamp()
+    }
+
+    pub fn pack_sizers(tree: PackSizer, data: PackSizer) -> BlobTypeMap<PackSizer> {
+        BlobTypeMap::<()>::default().map(|t, ()| match t {
+            BlobType::Tree => tree,
+            BlobType::Data => data,
+        })
+    }
+
+    fn make_used(used: Vec<(BlobType, BlobId)>) -> BTreeMap<BlobId, u8> {
+        used.into_iter().map(|(_, id)| (id, 0)).collect()
+    }
+
+    fn used_keys(plan: &PrunePlan) -> Vec<(BlobType, BlobId)> {
+        plan.used_ids.keys().map(|id| (BlobType::Data, *id)).collect()
+    }
 }
